@@ -56,12 +56,12 @@ def _check_main(run, P):
              "map_expressions or rebuilt from mapper(<same path>)", minimum=8)
 
     reads_writes(run, P, classes)
-    _callee_lookup(run, P)
+    run.do(_callee_lookup, run, P)
 
-    _mapper_config(run, P)
-    _written_whole(run, P, classes)
-    _flow(run, P, classes)
-    _ident(run, P, classes)
+    run.do(_mapper_config, run, P)
+    run.do(_written_whole, run, P, classes)
+    run.do(_flow, run, P, classes)
+    run.do(_ident, run, P, classes)
 
 
 def reads_writes(run, P, classes, r_reads="C08.reads", r_writes="C08.writes"):
@@ -428,8 +428,8 @@ def _flow_func(run, P, f, meth, rule="C08.flow"):
                     return True
         return False
 
-    _skip_and_subtract(run, P, f, stmts, is_source, rule)
-    _no_bypass(run, P, f, is_source, rule)
+    run.do(_skip_and_subtract, run, P, f, stmts, is_source, rule)
+    run.do(_no_bypass, run, P, f, is_source, rule)
     if meth == "get_read_variables":
         _only_collected(run, P, f, is_source, rule)
 
@@ -690,7 +690,7 @@ def _ident(run, P, classes):
                         f"with the identity would change the read/write sets"))
         # positional shape of loops elements
         _loop_shape(run, P, K)
-    _only_mapper(run, P, classes)
+    run.do(_only_mapper, run, P, classes)
 
 
 # callables that build or take apart containers / nodes without changing what an
